@@ -150,7 +150,7 @@ void h_readdata(void)
 	int status = nd_int_in(-1, 1);
 	(void)callback_readdata(H, status);
 	if (status == 0 && ucb_calls == 0 && !ho_chunkhdr && waits && !wait_refuse) {
-		CHECK(wait_cb == callback_readdata && wait_len >= 1 && wait_len <= 1024 * 1024, "waits for min(remaining, 1 MiB) more bytes");
+		CHECK(wait_cb == callback_readdata && wait_len >= 1 && wait_len <= H->readlen, "waits for at least one and at most the remaining bytes (the 1 MiB cap is an implementation choice)");
 	}
 	(void)rl0; (void)bl0;
 	outcome(ho_chunkhdr);
